@@ -23,7 +23,7 @@ ASSUMPTIONS = ["observations are finite with |x| in {0} or [1e-6, 1e12]",
                "a statistic whose conditioning-aware tolerance exceeds 1e-3 is judged for totality/NaN-structure only",
                "confidence_interval(0.0) is the whole clipped range [min, max]; alpha is documented inclusive"]
 
-ALPHAS = [0.0, 0.01, 0.05, 0.5, 1.0]
+ALPHAS = [0.0, 1e-300, 1e-17, 0.01, 0.05, 0.5, 1.0]
 _ratio = {"max": 0.0}
 
 
